@@ -716,6 +716,14 @@ def _with_inheritance(draw, desc):
             decl.append(dict(fields[i]))
             i += 1
     decl.extend(overrides)     # overriding fields are declared *after* the including (documented)
+    if len(bases) == 2 and draw(st.booleans()):
+        # diamond-style sharing: both bases declare a field of the same name; the later include replaces it in place
+        bf = bases[0]['fields']
+        j = draw(st.integers(0, len(bf) - 1))
+        real = dict(fields[segs[0][0] + j])
+        if real['k'] in ('uint', 'bytes', 'text', 'bool') and not any(o['n'] == real['n'] for o in overrides):
+            bf[j] = {'k': 'bytes', 't': real['t'], 'n': real['n']} if real['k'] != 'bytes' else {'k': 'text', 't': real['t'], 'n': real['n']}
+            bases[1]['fields'].insert(draw(st.integers(0, len(bases[1]['fields']))), real)
     return {'fields': fields, 'inherit': {'bases': bases, 'decl': decl}}
 
 
